@@ -51,6 +51,11 @@ def run(ctx):
         if st != "ok":
             ctx.error("serve child failed: " + evs[-600:])
             return
+        if evs and evs[0].get("ev") == "firsttouch":
+            ctx.violation({"kind": "nsf", "clause": "FirstTouchServes", "variant": evs[0]["variant"], "exc": evs[0]["exc"],
+                           "what": ["", "nsf.init(elements)", "elements.Fe[56].nuclear_spin", "elements.Fe.ion[2].neutron"][evs[0]["variant"]]
+                                   + " as the first touch of neutron data in a fresh interpreter raised"})
+            evs = []
         per.append(evs)
         for e in evs:
             byid[e["id"]] = e
